@@ -26,9 +26,11 @@ ASSUMPTIONS = [
     'says each app owns (TEMP_TABLE belongs to the rebuild in progress)',
 ]
 FLOORS = {'quick': {'nontrivial': 100, 'runs_checked': 150,
-                    'pairs_checked': 100},
+                    'pairs_checked': 100, 'payloads_checked': 20,
+                    'created_pairs_checked': 100},
           'thorough': {'nontrivial': 1500, 'runs_checked': 2000,
-                       'pairs_checked': 1500}}
+                       'pairs_checked': 1500, 'payloads_checked': 250,
+                       'created_pairs_checked': 1200}}
 SIZES = {'quick': 64, 'thorough': 600}
 TIMEOUT = {'quick': 170, 'thorough': 1700}
 HANDOVERS = {'quick': 16, 'thorough': 150}
